@@ -13,15 +13,19 @@ writes outside `init()` on the parse / runtime-construction path.
 namespace Ecal.Props.C13
 open Ecal.Conc Ecal.Gen.C13
 
-/-- Lock-protected writes, justified one by one (variable, function). None is needed
-    for the code as it is: the only write on the path is a `sync/atomic` update. -/
-def lockProtected : List (String × String) := []
+/-- The package-level writes that are allowed — an EXACT list of (variable, function, kind),
+    each entry justified:
+    * `interpreter.instanceCounter` updated by `sync/atomic` in `newBaseRuntime`: the update is
+      atomic, and the value obtained flows only into the `instanceID` of the new runtime component
+      (generated fact `counterFlows`, obligation `counter_flows_into_instanceID`), which is not part
+      of a tree, of an error or of an evaluation result (hypothesis `hC`, exercised by the stress:
+      sequential and concurrent results are computed at different counter values).
+    Nothing else: a new `sync/atomic` cell, a `sync.Pool`, a `sync.Map`, a channel are free of data
+    races but still carry information from one parse to another, and the property is purity. -/
+def allowedWrites : List Write := [
+  ⟨"interpreter.instanceCounter", "interpreter.newBaseRuntime", "atomic"⟩]
 
-/-- A write is allowed iff it is a `sync/atomic` operation or one of the listed
-    lock-protected writes. (The syntactic `+lock` hint of the extractor alone does
-    not make a write allowed.) -/
-def allowedWrite (w : Write) : Bool :=
-  w.kind == "atomic" || lockProtected.contains (w.name, w.fn)
+def allowedWrite (w : Write) : Bool := allowedWrites.contains w
 
 /-- cells with an allowed (atomic / lock-protected) update -/
 def allowedCells (ws : List Write) : List String := (ws.filter allowedWrite).map (·.name)
@@ -40,6 +44,16 @@ theorem writesOnParsePath_allowed : ∀ w ∈ writesOnParsePath, allowedWrite w 
 theorem allWrites_allowed : ∀ w ∈ allWrites, allowedWrite w = true := by decide
 
 example : ¬ (∀ w ∈ [Write.mk "parser.laBufferPool" "parser.LABuffer.release" "call:Put"], allowedWrite w = true) := by decide
+
+/-- an atomic cell is not allowed because it is atomic (seeded changes C13-1, C13c-1) -/
+example : allowedWrite ⟨"parser.pendingPre", "parser.parser.next", "atomic"⟩ = false ∧
+    allowedWrite ⟨"parser.guardExpressionDepth", "parser.ndGuard", "atomic"⟩ = false := by decide
+
+/-- **Generated side obligation** (three-valued): the value obtained from the instance counter is not
+    seen to flow anywhere but into `instanceID` (`unknown:…` entries are not judged; they are noted
+    by the check). -/
+theorem counter_flows_into_instanceID :
+    ∀ f ∈ counterFlows, f.2.1 = "instanceID" ∨ f.2.1 = "unknown" := by decide
 
 /-- The extractor looked at the right code: the entry points exist and the
     functions that carried the defect are on the path it follows. -/
